@@ -114,17 +114,28 @@ func c11ClassOf(e *d2graph.Edge) c11Class {
 }
 
 // c11Numbering checks index.consecutive and index.unique-id on one board.
-func c11Numbering(res *run.Result, g *d2graph.Graph, kind string) (maxParallel int) {
+//
+// strict: the indices follow list (= declaration) order. Programs with globs are judged
+// non-strictly — the indices of a class must be the set {0..k-1} — because a lazily
+// re-applied glob declared early creates its connection late, so "declaration order" is
+// not defined between it and an explicit connection written in between (false alarm
+// corrected: `* <-> *` … `q <-> *` lists (q <-> a)[1] before (q <-> a)[0]).
+func c11Numbering(res *run.Result, g *d2graph.Graph, kind string, strict bool) (maxParallel int) {
 	next := map[c11Class]int{}
 	ids := map[string]bool{}
+	have := map[c11Class]map[int]bool{}
 	for _, e := range g.Edges {
 		if e.Src == nil || e.Dst == nil {
 			continue
 		}
 		c := c11ClassOf(e)
-		if e.Index != next[c] {
+		if strict && e.Index != next[c] {
 			res.Viol("C11.index.consecutive", "C11.index.consecutive:"+kind, fmt.Sprintf("board %q: connection %s has index %d but is number %d of its class in list order", g.Name, e.AbsID(), e.Index, next[c]))
 		}
+		if have[c] == nil {
+			have[c] = map[int]bool{}
+		}
+		have[c][e.Index] = true
 		next[c]++
 		if next[c] > maxParallel {
 			maxParallel = next[c]
@@ -135,7 +146,19 @@ func c11Numbering(res *run.Result, g *d2graph.Graph, kind string) (maxParallel i
 		}
 		ids[id] = true
 	}
-	res.Add("clause_numbering_edges_checked", len(g.Edges))
+	for c, set := range have {
+		for i := 0; i < next[c]; i++ {
+			if !set[i] {
+				res.Viol("C11.index.gap", "C11.index.gap:"+kind, fmt.Sprintf("board %q: the %d connections between %s and %s do not carry the indices 0..%d (index %d is missing)", g.Name, next[c], c09Show(c.src), c09Show(c.dst), next[c]-1, i))
+				break
+			}
+		}
+	}
+	if strict {
+		res.Add("clause_numbering_edges_checked_strict", len(g.Edges))
+	} else {
+		res.Add("clause_numbering_edges_checked_set_only", len(g.Edges))
+	}
 	return
 }
 
@@ -273,7 +296,7 @@ func execC11(c run.Case) (res run.Result) {
 		if path != "root" {
 			kind = "nested-board"
 		}
-		if k := c11Numbering(&res, b, kind); k > maxPar {
+		if k := c11Numbering(&res, b, kind, !strings.Contains(in.Text, "*")); k > maxPar {
 			maxPar = k
 		}
 	})
